@@ -151,6 +151,9 @@ func runStreamProp(c *Ctx, id string) {
 	if id == "C14" {
 		runC14Keys(c)
 	}
+	if id == "C16" {
+		runC16Gauges(c)
+	}
 }
 
 // runC14Keys compares the real key construction and the real reserved-prefix test with Model/Keys.v.
